@@ -463,6 +463,11 @@ func oracleC07(w *World, p *PlanSrv, h *History, sut *SUT, peers []*RawPeer) {
 
 func runC07(w *World, pi interface{}) {
 	p := pi.(*PlanSrv)
+	if p.Conf.Full && len(p.Scripts) > 1 {
+		// the builder's callbacks cannot be attributed to one of several concurrent connections,
+		// which the reference model needs: one connection at a time against a full server
+		p.Scripts = p.Scripts[:1]
+	}
 	var last []string
 	h, sut, peers := runSrvScenario(w, p, func(s *SUT) {
 		w.AfterEachStep(func() {
